@@ -10,6 +10,7 @@ import Saltpack.Model.Classify
 import Saltpack.Proofs.MsgpackRT
 import Saltpack.Proofs.ArmorRT
 import Saltpack.Proofs.ClassifyAux
+import Saltpack.Proofs.ClassifyCodec
 
 namespace Saltpack.Proofs
 open Saltpack Saltpack.Classify Saltpack.Msgpack Saltpack.Armor ClsAux
@@ -39,37 +40,6 @@ theorem isMode_le (t : Nat) (h : isMode (t : Int) = true) : t ≤ 3 := by
   have h3 : mtSigncryption = 3 := rfl
   rcases isMode_cases _ h with h | h | h | h <;> omega
 
-/-- what `binarySlice` reads after the two tags, as a function of the rest -/
-def binBody (rest : Bytes) : Verdict (Int × Version) :=
-  match parse1 rest with
-  | .error _ => .notSaltpack
-  | .ok (fn, r1) =>
-    match fn with
-    | .str s | .bin s =>
-      if s != Gen.c_sp_FormatName then .notSaltpack
-      else match parse1 r1 with
-        | .error _ => .notSaltpack
-        | .ok (ver, r2) =>
-          match ver with
-          | .arr (.int ma :: .int mi :: _) =>
-            match parse1 r2 with
-            | .error _ => .notSaltpack
-            | .ok (.int t, _) => if isMode t then .ok (t, ⟨ma, mi⟩) else .notSaltpack
-            | .ok (.bool _, _) => .notSaltpack
-            | .ok (.str _, _) => .notSaltpack
-            | .ok (.bin _, _) => .notSaltpack
-            | .ok _ => .unmodelled "message type shape"
-          | .int _ => .notSaltpack
-          | .bool _ => .notSaltpack
-          | .str _ => .notSaltpack
-          | .bin _ => .notSaltpack
-          | _ => .unmodelled "version shape"
-    | .int _ => .notSaltpack
-    | .bool _ => .notSaltpack
-    | .arr _ => .notSaltpack
-    | .map _ => .notSaltpack
-    | _ => .unmodelled "format name shape"
-
 theorem bin_reduce (b : Bytes) (skip askip : Nat) (hlen : 23 ≤ b.length)
     (h0 : (let t0 := (b.getD 0 0).toNat
       if t0 = 0xc4 then some 2 else if t0 = 0xc5 then some 3 else if t0 = 0xc6 then some 5 else none) = some skip)
@@ -82,24 +52,6 @@ theorem bin_reduce (b : Bytes) (skip askip : Nat) (hlen : 23 ≤ b.length)
   rw [h0]
   simp only
   rw [h1]
-  rfl
-
-theorem binBody_correct (ma mi t : Nat) (hma : ma < 128) (hmi : mi < 128) (ht : isMode (t : Int) = true) (tail : Bytes) :
-    binBody (encode (.str Gen.c_sp_FormatName) ++ (encode (.arr [.int ma, .int mi]) ++ (encode (.int t) ++ tail))) =
-      .ok ((t : Int), ⟨ma, mi⟩) := by
-  unfold binBody
-  rw [parse1_encode _ (ValWF.str _ (by decide))]
-  simp only [bne_self_eq_false, Bool.false_eq_true, if_false]
-  rw [parse1_encode _ (ValWF.arr _ (by simp) (by
-    intro v hv
-    simp only [List.mem_cons, List.not_mem_nil, or_false] at hv
-    rcases hv with rfl | rfl
-    · exact ValWF.int _ (by omega) (by omega)
-    · exact ValWF.int _ (by omega) (by omega)))]
-  simp only
-  have htl := isMode_le t ht
-  rw [parse1_encode _ (ValWF.int _ (by omega) (by omega))]
-  simp only [ht, if_true]
 
 end ClsAux
 open ClsAux
@@ -135,7 +87,7 @@ theorem bin_correct (btag atag tail : Bytes) (hb : IsBinTag btag) (ha : IsArrTag
       simp only [List.append_assoc]
       rw [← List.append_assoc btag atag, List.drop_left]
     rw [this]
-    exact binBody_correct ma mi t hma hmi ht tail
+    exact CodecMono.binBody_correct ma mi t hma hmi ht tail
   rcases hb with ⟨a, rfl⟩ | ⟨a, b, rfl⟩ | ⟨a, b, c, d, rfl⟩ <;>
     rcases ha with ⟨n, hn1, hn2, rfl⟩ | ⟨a', b', rfl⟩ | ⟨a', b', c', d', rfl⟩
   all_goals first
@@ -187,67 +139,16 @@ theorem bin_correct_prefix (btag atag tail : Bytes) (hb : IsBinTag btag) (ha : I
   rw [List.length_append, List.length_take]
   omega
 
-namespace ClsAux
-
-/-- the part of `binarySlice` after the format name -/
-def binTail (s r1 : Bytes) : Verdict (Int × Version) :=
-  if s != Gen.c_sp_FormatName then .notSaltpack
-  else match parse1 r1 with
-    | .error _ => .notSaltpack
-    | .ok (ver, r2) =>
-      match ver with
-      | .arr (.int ma :: .int mi :: _) =>
-        match parse1 r2 with
-        | .error _ => .notSaltpack
-        | .ok (.int t, _) => if isMode t then .ok (t, ⟨ma, mi⟩) else .notSaltpack
-        | .ok (.bool _, _) => .notSaltpack
-        | .ok (.str _, _) => .notSaltpack
-        | .ok (.bin _, _) => .notSaltpack
-        | .ok _ => .unmodelled "message type shape"
-      | .int _ => .notSaltpack
-      | .bool _ => .notSaltpack
-      | .str _ => .notSaltpack
-      | .bin _ => .notSaltpack
-      | _ => .unmodelled "version shape"
-
-theorem binTail_sound (s r1 : Bytes) (t : Int) (v : Version) (h : binTail s r1 = .ok (t, v)) :
-    s = Gen.c_sp_FormatName ∧ isMode t = true ∧ ∃ more r2 r3,
-      parse1 r1 = .ok (.arr (.int v.major :: .int v.minor :: more), r2) ∧
-      parse1 r2 = .ok (.int t, r3) := by
-  unfold binTail at h
-  split at h
-  · cases h
-  · rename_i hs
-    refine ⟨by simpa using hs, ?_⟩
-    split at h
-    · cases h
-    · rename_i ver r2 hp2
-      split at h
-      · rename_i ma mi more
-        split at h
-        · cases h
-        · rename_i t' r3 hp3
-          split at h
-          · rename_i hm
-            cases h
-            exact ⟨hm, more, r2, r3, hp2, hp3⟩
-          · cases h
-        all_goals cases h
-      all_goals cases h
-
-end ClsAux
-open ClsAux
-
-/-- **soundness**: an answer implies a bin tag, an array tag, the saltpack format
-    name, a version pair and that very mode, in this order, in the bytes -/
+/-- **soundness**: an answer implies a bin tag, an array tag and — read by
+    go-codec's typed decoders, in this order, from the bytes that follow — the
+    saltpack format name, that version and that very mode -/
 theorem bin_sound (b : Bytes) (t : Int) (v : Version) (h : binarySlice b = .ok (t, v)) :
     isMode t = true ∧ 23 ≤ b.length ∧
-    ∃ skip askip fn r1 more r2 r3,
+    ∃ skip askip r1 r2 r3,
       (skip = 2 ∨ skip = 3 ∨ skip = 5) ∧ (askip = 1 ∨ askip = 3 ∨ askip = 5) ∧
-      parse1 (b.drop (skip + askip)) = .ok (fn, r1) ∧
-      (fn = .str Gen.c_sp_FormatName ∨ fn = .bin Gen.c_sp_FormatName) ∧
-      parse1 r1 = .ok (.arr (.int v.major :: .int v.minor :: more), r2) ∧
-      parse1 r2 = .ok (.int t, r3) := by
+      decName (b.drop (skip + askip)) = .ok (Gen.c_sp_FormatName, r1) ∧
+      decVersionTop r1 = .ok (v, r2) ∧
+      decMode r2 = .ok (t, r3) := by
   unfold binarySlice at h
   rw [minLen_eq] at h
   split at h
@@ -268,17 +169,8 @@ theorem bin_sound (b : Bytes) (t : Int) (v : Version) (h : binarySlice b = .ok (
           revert haskip; repeat' split
           all_goals simp
           all_goals omega
-        split at h
-        · cases h
-        · rename_i fn r1 hp1
-          split at h
-          · rename_i s
-            obtain ⟨hs, hm, more, r2, r3, h2, h3⟩ := binTail_sound s r1 t v h
-            exact ⟨hm, by omega, skip, askip, _, r1, more, r2, r3, hsk, hask, hp1, Or.inl (by rw [hs]), h2, h3⟩
-          · rename_i s
-            obtain ⟨hs, hm, more, r2, r3, h2, h3⟩ := binTail_sound s r1 t v h
-            exact ⟨hm, by omega, skip, askip, _, r1, more, r2, r3, hsk, hask, hp1, Or.inr (by rw [hs]), h2, h3⟩
-          all_goals cases h
+        obtain ⟨hm, r1, r2, r3, h1, h2, h3⟩ := CodecMono.binBody_sound _ t v h
+        exact ⟨hm, by omega, skip, askip, r1, r2, r3, hsk, hask, h1, h2, h3⟩
 
 /-- an answer never names anything but the four modes -/
 theorem bin_modes (b : Bytes) (t : Int) (v : Version) (h : binarySlice b = .ok (t, v)) :
